@@ -476,6 +476,15 @@ class Domain(Exception):
 
 
 def ref_eval(e, t, env, spec, depth=0):
+    """reference value; a non-finite result (overflow to inf, nan) is outside the value oracle's domain like any other undefined
+    value: IEEE non-finite arithmetic is not the property's subject"""
+    v = _ref_eval(e, t, env, spec, depth)
+    if depth == 0 and isinstance(v, float) and not math.isfinite(v):
+        raise Domain("non-finite")
+    return v
+
+
+def _ref_eval(e, t, env, spec, depth=0):
     """XMILE semantics in float arithmetic. env: python identifier -> reference tree; spec = (start, stop, dt)"""
     if depth > 200: raise Domain("depth")
     k = e[0]
